@@ -13,6 +13,9 @@ Complete enumeration (depth-1 state space, no sampling) of
   (e) encoder-side cases in which the message sizes change between decode and encode (objects edited
       through the protobuf API; segments built with create_iwa_segment), which is where the header
       length refresh matters,
+  (d2) identifier boundaries: the smallest synthetic stream of every kind x {1, 2} segments x unknown
+      fields whose first segment identifier is 0, 1, a varint length step, or a 2^31 / 2^32 / 2^63 /
+      2^64 edge (IDENT_BASES);
   (e2) second encodings: every distinct archive stream (fixtures, generated documents, synthetic) is
       decoded and encoded, then the SAME in-memory archive is edited (nothing / a size-preserving
       change of the first or of the last message of every segment / a size-changing change / a
@@ -274,15 +277,15 @@ def make_segment(ident, kind, a, b, comp, unk, seed):
     return [ai, payloads]
 
 
-def build_synth(total, nseg, kind, comp, unk, seed):
+def build_synth(total, nseg, kind, comp, unk, seed, base=1000):
     """Archive stream of exactly `total` bytes (the smallest stream of the shape when `total` is
-    below it; the empty stream for 0)."""
+    below it; the empty stream for 0).  `base` is the identifier of the first segment."""
     if total == 0:
         return b""
 
     def build(a, b):
         per, rem = divmod(a, nseg)
-        return pkg.join([make_segment(1000 + 2 * i, kind, per + (rem if i == nseg - 1 else 0), b if i == nseg - 1 else 0, comp, unk, seed)
+        return pkg.join([make_segment(base + 2 * i, kind, per + (rem if i == nseg - 1 else 0), b if i == nseg - 1 else 0, comp, unk, seed)
                          for i in range(nseg)])
 
     s = build(0, 0)
@@ -306,9 +309,17 @@ def build_synth(total, nseg, kind, comp, unk, seed):
     raise HarnessError(f"cannot build a synthetic stream of exactly {total} bytes for {nseg} {kind} segments")
 
 
+# identifier boundaries of the first segment (ArchiveInfo.identifier is a uint64 varint): zero, the
+# varint length steps, the 32/63/64-bit edges.  A decoder that tests the header or its identifier for
+# truthiness, or narrows the id, fails on exactly these.
+IDENT_BASES = [0, 1, 127, 128, 16383, 16384, 2**31 - 1, 2**31, 2**32 - 1, 2**32, 2**63 - 1, 2**63, 2**64 - 8]
+
+
 def synth_sources(seed):
     return [["synth", total, nseg, kind, comp, unk, seed]
-            for total in SIZES for nseg in NSEGS for kind in KINDS for comp in (1, 0) for unk in (0, 1)]
+            for total in SIZES for nseg in NSEGS for kind in KINDS for comp in (1, 0) for unk in (0, 1)] + [
+        ["synth", 1, nseg, kind, 1, unk, seed, base]
+            for base in IDENT_BASES for nseg in (1, 2) for kind in KINDS for unk in (0, 1)]
 
 
 # ---------------------------------------------------------------------------------------------
@@ -1252,7 +1263,7 @@ def main():
               c["roundtrip_fix"] >= 5000 and c["fixtures_enumerated"] >= 60 and c["fixtures_package_folders"] >= 1 and ("fix", "@template", "Index/Document.iwa") in infos)
     run.floor(">= 4 generated documents with >= 100 IWA members, one encoder output over 64 KiB", c["generated_documents"] >= 4 and n_gen >= 100 and c["multi_chunk_encoder_outputs"] >= 1)
     run.floor("every synthetic size from 65535 upwards was built exactly, size 0 is the empty stream", want_synth <= synth_sizes and 0 in synth_sizes)
-    run.floor("all synthetic shapes evaluated", c["roundtrip_synth"] == len(SIZES) * len(NSEGS) * len(KINDS) * 4)
+    run.floor("all synthetic shapes evaluated", c["roundtrip_synth"] == len(SIZES) * len(NSEGS) * len(KINDS) * 4 + len(IDENT_BASES) * 2 * len(KINDS) * 2)
     run.floor(">= 50 multi-chunk inputs, >= 100 multi-message segments, >= 50 merge-patch messages, >= 100 messages with unknown fields",
               c["multi_chunk_inputs"] >= 50 and c["multi_message_segments"] >= 100 and c["merge_patch_messages"] >= 50 and c["messages_with_unknown_fields"] >= 100)
     if c["rechunk_not_evaluated_after_repeated_failures"]:
